@@ -1146,3 +1146,22 @@ impl<Backing : AsRef<[u32]> + AsMut<[u32]>> DrawTarget<Backing> {
         writer.write_image_data(&output)
     }
 }
+
+// verification hooks: only compiled with RUSTFLAGS="--cfg raqote_verif"
+#[cfg(raqote_verif)]
+impl<Backing : AsRef<[u32]> + AsMut<[u32]>> DrawTarget<Backing> {
+    /// True when the rasterizer holds nothing from an earlier call
+    pub fn verif_rasterizer_idle(&self) -> bool {
+        self.rasterizer.verif_is_idle()
+    }
+
+    /// The pixels and bounds of the innermost open layer, if any
+    pub fn verif_top_layer(&self) -> Option<(&[u32], IntRect)> {
+        self.layer_stack.last().map(|l| (&l.buf[..], l.rect))
+    }
+
+    /// The clip currently in force: bounds and, if any clip path was pushed, its coverage mask
+    pub fn verif_clip(&self) -> (IntRect, Option<&[u8]>) {
+        (self.clip_bounds(), self.clip_stack.last().and_then(|c| c.mask.as_ref().map(|m| &m[..])))
+    }
+}
